@@ -1,72 +1,29 @@
 import OpacusLean.Model.Calib
 import OpacusLean.Model.Binary64
+import OpacusLean.Lemmas.Binary64Steps
+import OpacusLean.Lemmas.Calib
 import Mathlib.Order.Basic
-/-! # C08 — calibrated noise never overshoots the requested budget -/
+import Mathlib.Algebra.Order.Field.Basic
+import Mathlib.Tactic.Linarith
+import Mathlib.Tactic.Positivity
+import Mathlib.Tactic.FieldSimp
+import Mathlib.Tactic.Ring
+/-! # C08 — calibrated noise never overshoots the requested budget
+
+* `bisection_invariant` (any preorder, ANY accountant function), `bisection_invariant_le`;
+* `doubling_guard`, `doubling_terminates`, `bisection_terminates(_lipschitz)`, `terminates`;
+* `steps_trunc_bounds` (every rounding with relative error 2^-53) and `steps_trunc_bounds_model`
+  (the executable exact-binary64 model): the truncations lose at most one step, never gain;
+* `steps_consistent_iff`, `calibration_sound_partial` (the end-to-end statement under the consistency
+  condition), `calibration_sound_repaired`;
+* `overshoot_witnesses`: kernel-evaluated on Lean's own `Float` and on the model — the condition
+  fails as coded (finding D14). -/
 set_option linter.unusedSectionVars false
 namespace Opacus.C08
 open Opacus.Calib
 
 section anyOrder
 variable {R : Type} [Add R] [Sub R] [Mul R] [Div R] [Preorder R] [DecidableLT R] [OfNat R 2]
-
-/-- second loop: if it is entered with `eps_high = eps sigma_high ≤ target` then whatever it returns
-satisfies both exit conditions *at the returned σ* -/
-theorem bisect_ok (eps : R → R) (target tol : R) :
-    ∀ (fuel : Nat) (lo hi epsHi : R) (log : List R) (σ : R),
-      epsHi = eps hi → ¬ target < epsHi →
-      (bisect eps target tol fuel lo hi epsHi log).res = .ok σ →
-      ¬ target < eps σ ∧ ¬ tol < target - eps σ := by
-  intro fuel
-  induction fuel with
-  | zero =>
-    intro lo hi epsHi log σ h1 h2 h
-    unfold bisect at h
-    split at h
-    · cases h
-    · injection h with h; subst h; subst h1; exact ⟨h2, by assumption⟩
-  | succ n ih =>
-    intro lo hi epsHi log σ h1 h2 h
-    unfold bisect at h
-    split at h
-    · simp only at h
-      split at h
-      · rename_i hlt
-        exact ih _ _ _ _ σ rfl (lt_asymm hlt) h
-      · exact ih _ _ _ _ σ h1 h2 h
-    · injection h with h; subst h; subst h1; exact ⟨h2, by assumption⟩
-
-/-- first loop: started from `eps_high = inf > target`, it can only finish with
-`eps_high = eps sigma_high` and `¬ eps_high > target` -/
-theorem doubling_done (eps : R → R) (target maxSigma : R) :
-    ∀ (fuel : Nat) (hi epsHi : R) (log : List R) (hi' epsHi' : R) (log' : List R),
-      (epsHi = eps hi ∨ target < epsHi) →
-      doubling eps target maxSigma fuel hi epsHi log = .done hi' epsHi' log' →
-      epsHi' = eps hi' ∧ ¬ target < epsHi' := by
-  intro fuel
-  induction fuel with
-  | zero =>
-    intro hi epsHi log hi' epsHi' log' h0 h
-    unfold doubling at h
-    split at h
-    · cases h
-    · rename_i hn
-      injection h with a b c; subst a; subst b
-      rcases h0 with h0 | h0
-      · exact ⟨h0, hn⟩
-      · exact absurd h0 hn
-  | succ n ih =>
-    intro hi epsHi log hi' epsHi' log' h0 h
-    unfold doubling at h
-    split at h
-    · simp only at h
-      split at h
-      · cases h
-      · exact ih _ _ _ _ _ _ (Or.inl rfl) h
-    · rename_i hn
-      injection h with a b c; subst a; subst b
-      rcases h0 with h0 | h0
-      · exact ⟨h0, hn⟩
-      · exact absurd h0 hn
 
 /-- **bisection_invariant** — for ANY accountant function `eps` (no monotonicity, no continuity),
 any fuel, any starting bracket: whenever `get_noise_multiplier` returns `σ`, the accountant's
@@ -84,5 +41,249 @@ theorem bisection_invariant (eps : R → R) (target tol maxSigma inf lo0 hi0 : R
   · cases h
 
 end anyOrder
+
+
+section linear
+variable {R : Type} [Add R] [Sub R] [Mul R] [Div R] [LinearOrder R] [OfNat R 2]
+
+/-- `bisection_invariant` read in a linear order: `target − tol ≤ eps σ ≤ target` in the form the
+code tests it -/
+theorem bisection_invariant_le (eps : R → R) (target tol maxSigma inf lo0 hi0 : R) (fuelD fuelB : Nat) (σ : R)
+    (hinf : target < inf)
+    (h : (getNoiseMultiplier eps target tol maxSigma inf lo0 hi0 fuelD fuelB).res = .ok σ) :
+    eps σ ≤ target ∧ target - eps σ ≤ tol := by
+  obtain ⟨a, b⟩ := bisection_invariant eps target tol maxSigma inf lo0 hi0 fuelD fuelB σ hinf h
+  exact ⟨not_lt.1 a, not_lt.1 b⟩
+
+end linear
+
+section field
+variable {R : Type} [Field R] [LinearOrder R] [IsStrictOrderedRing R]
+
+/-- **doubling_guard** — `get_noise_multiplier` never returns a σ above `MAX_SIGMA` (nor below the
+low end of the initial bracket); if the accountant stays above the target on the whole admissible
+range the call cannot succeed (it raises "The privacy budget is too low", or runs out of fuel). -/
+theorem doubling_guard (eps : R → R) (target tol maxSigma inf lo0 hi0 : R) (fuelD fuelB : Nat) (σ : R)
+    (hinf : target < inf) (h0 : 0 ≤ hi0) (hlo : lo0 ≤ hi0)
+    (h : (getNoiseMultiplier eps target tol maxSigma inf lo0 hi0 fuelD fuelB).res = .ok σ) :
+    lo0 ≤ σ ∧ σ ≤ maxSigma := by
+  unfold getNoiseMultiplier at h
+  split at h
+  · rename_i hi epsHi log hd
+    obtain ⟨h1, h2⟩ := doubling_le eps target maxSigma fuelD hi0 inf [] hi epsHi log h0 (Or.inl hinf) hd
+    obtain ⟨h3, h4⟩ := bisect_range eps target tol fuelB lo0 hi epsHi log σ (le_trans hlo h2) h
+    exact ⟨h3, le_trans h4 h1⟩
+  · cases h
+  · cases h
+
+/-- the first loop needs at most `n + 1` iterations when `MAX_SIGMA < 2^n · sigma_high₀`
+(real code: `10·2^17 = 1310720 > 10^6`, so 18) -/
+theorem doubling_terminates (eps : R → R) (target maxSigma : R) :
+    ∀ (n fuel : Nat) (hi epsHi : R) (log : List R), 0 < hi → maxSigma < 2 ^ n * hi → n + 1 ≤ fuel →
+      ∀ l, doubling eps target maxSigma fuel hi epsHi log ≠ .outOfFuel l := by
+  intro n
+  induction n with
+  | zero =>
+    intro fuel hi epsHi log hpos hmax hf l
+    obtain ⟨f, rfl⟩ : ∃ f, fuel = f + 1 := ⟨fuel - 1, by omega⟩
+    unfold doubling
+    split
+    · simp only
+      have : maxSigma < 2 * hi := by simp at hmax; linarith
+      simp [this]
+    · simp
+  | succ n ih =>
+    intro fuel hi epsHi log hpos hmax hf l
+    obtain ⟨f, rfl⟩ : ∃ f, fuel = f + 1 := ⟨fuel - 1, by omega⟩
+    unfold doubling
+    split
+    · simp only
+      split
+      · simp
+      · apply ih
+        · linarith
+        · rw [pow_succ] at hmax; linarith
+        · omega
+    · simp
+
+/-- **bisection_terminates** — local modulus of continuity at the target level: if any two points
+of the bracket that straddle the target and are `δ`-close have the upper one within `tol` of the
+target, then `n` halvings suffice once `hi − lo ≤ 2^n · δ`.  No monotonicity is needed. -/
+theorem bisection_terminates (eps : R → R) (target tol δ lo0 hi0 : R)
+    (hmod : ∀ a b, lo0 ≤ a → a ≤ b → b ≤ hi0 → b - a ≤ δ → ¬ eps a < target → ¬ target < eps b →
+      target - eps b ≤ tol) :
+    ∀ (n fuel : Nat) (lo hi epsHi : R) (log : List R), lo0 ≤ lo → lo ≤ hi → hi ≤ hi0 →
+      epsHi = eps hi → ¬ target < epsHi → ¬ eps lo < target → hi - lo ≤ 2 ^ n * δ → n ≤ fuel →
+      (bisect eps target tol fuel lo hi epsHi log).res ≠ .outOfFuel := by
+  intro n
+  induction n with
+  | zero =>
+    intro fuel lo hi epsHi log h1 h2 h3 he hh hl hw hf
+    have hstop : ¬ tol < target - epsHi := by
+      rw [he] at hh ⊢
+      exact not_lt.2 (hmod lo hi h1 h2 h3 (by simpa using hw) hl hh)
+    cases fuel <;> (unfold bisect; simp [hstop])
+  | succ n ih =>
+    intro fuel lo hi epsHi log h1 h2 h3 he hh hl hw hf
+    obtain ⟨f, rfl⟩ : ∃ f, fuel = f + 1 := ⟨fuel - 1, by omega⟩
+    unfold bisect
+    split
+    · simp only
+      have hm1 : lo ≤ (lo + hi) / 2 := by linarith
+      have hm2 : (lo + hi) / 2 ≤ hi := by linarith
+      have hw' : (2 : R) ^ (n + 1) * δ = 2 * (2 ^ n * δ) := by rw [pow_succ]; ring
+      split
+      · rename_i hlt
+        exact ih f lo _ _ _ h1 hm1 (le_trans hm2 h3) rfl (lt_asymm hlt) hl (by linarith) (by omega)
+      · rename_i hnl
+        exact ih f _ hi _ _ (le_trans h1 hm1) hm2 h3 he hh hnl (by linarith) (by omega)
+    · simp
+
+/-- Lipschitz corollary: `eps a − eps b ≤ K·(b − a)` on the bracket gives the modulus `δ = tol/K` -/
+theorem bisection_terminates_lipschitz (eps : R → R) (target tol K lo0 hi0 : R) (hK : 0 < K)
+    (hlip : ∀ a b, lo0 ≤ a → a ≤ b → b ≤ hi0 → eps a - eps b ≤ K * (b - a))
+    (n fuel : Nat) (epsHi : R) (log : List R) (hle : lo0 ≤ hi0)
+    (he : epsHi = eps hi0) (hh : ¬ target < epsHi) (hl : ¬ eps lo0 < target)
+    (hw : hi0 - lo0 ≤ 2 ^ n * (tol / K)) (hf : n ≤ fuel) :
+    (bisect eps target tol fuel lo0 hi0 epsHi log).res ≠ .outOfFuel := by
+  refine bisection_terminates eps target tol (tol / K) lo0 hi0 ?_ n fuel lo0 hi0 epsHi log
+    (le_refl _) hle (le_refl _) he hh hl hw hf
+  intro a b h1 h2 h3 h4 h5 _
+  have := hlip a b h1 h2 h3
+  have h6 : K * (b - a) ≤ K * (tol / K) := mul_le_mul_of_nonneg_left h4 hK.le
+  have h7 : K * (tol / K) = tol := by field_simp
+  have h8 : target ≤ eps a := not_lt.1 h5
+  linarith
+
+/-- **termination** of the whole routine with an explicit fuel bound -/
+theorem terminates (eps : R → R) (target tol maxSigma inf lo0 hi0 δ : R) (nD nB fuelD fuelB : Nat)
+    (hinf : target < inf) (h0 : 0 < hi0) (hlo : lo0 ≤ hi0)
+    (hmax : maxSigma < 2 ^ nD * hi0) (hfD : nD + 1 ≤ fuelD)
+    (hl : ¬ eps lo0 < target)
+    (hmod : ∀ a b, lo0 ≤ a → a ≤ b → b ≤ maxSigma → b - a ≤ δ → ¬ eps a < target → ¬ target < eps b →
+      target - eps b ≤ tol)
+    (hw : maxSigma - lo0 ≤ 2 ^ nB * δ) (hfB : nB ≤ fuelB) :
+    (getNoiseMultiplier eps target tol maxSigma inf lo0 hi0 fuelD fuelB).res ≠ .outOfFuel := by
+  unfold getNoiseMultiplier
+  split
+  · rename_i hi epsHi log hd
+    obtain ⟨h1, h2⟩ := doubling_le eps target maxSigma fuelD hi0 inf [] hi epsHi log h0.le (Or.inl hinf) hd
+    have hdd := doubling_done eps target maxSigma fuelD hi0 inf [] hi epsHi log (Or.inr hinf) hd
+    exact bisection_terminates eps target tol δ lo0 maxSigma hmod nB fuelB lo0 hi epsHi log (le_refl _)
+      (le_trans hlo h2) h1 hdd.1 hdd.2 hl (by linarith) hfB
+  · simp
+  · rename_i log hd
+    exact absurd hd (doubling_terminates eps target maxSigma nD fuelD hi0 inf [] h0 hmax hfD log)
+
+end field
+
+/-! ## Step and rate bookkeeping in exact binary64 -/
+section steps
+open Opacus.Binary64
+
+/-- **steps_trunc_bounds** — for EVERY rounding function with relative error `2^-53` (the IEEE
+contract; monotonicity and exactness are not even needed) and `epochs·L < 2^51`:
+`int(1/(1/L)) ∈ {L−1, L}` and `int(epochs/(1/L)) ∈ {epochs·L−1, epochs·L}`.  The truncations can
+lose one step, never gain one. -/
+theorem steps_trunc_bounds (fl : ℚ → ℚ) (hfl : ∀ x, 0 < x → RelClose (fl x) x)
+    (E L : ℕ) (hE : 0 < E) (hL : 0 < L) (h : E * L < 2 ^ 51) (hL51 : L < 2 ^ 51) :
+    (⌊fl (1 / fl (1 / L))⌋₊ = L ∨ ⌊fl (1 / fl (1 / L))⌋₊ + 1 = L) ∧
+    (⌊fl (E / fl (1 / L))⌋₊ = E * L ∨ ⌊fl (E / fl (1 / L))⌋₊ + 1 = E * L) := by
+  have hL' : (0 : ℚ) < L := by exact_mod_cast hL
+  have hq := hfl (1 / L) (by positivity)
+  have hqpos : 0 < fl (1 / L) := hq.pos (by positivity)
+  constructor
+  · have hs := hfl (1 / fl (1 / L)) (by positivity)
+    have := floor_of_relclose 1 L hL _ _ hq (by simpa using hs) (by simpa using hL51)
+    simpa using this
+  · have hE' : (0 : ℚ) < E := by exact_mod_cast hE
+    have hs := hfl (E / fl (1 / L)) (by positivity)
+    exact floor_of_relclose E L hL _ _ hq hs h
+
+/-- the same for the executable exact-binary64 model (whose rounding satisfies the contract:
+`Binary64.rne_rel_error`), including `epochs = 0` -/
+theorem steps_trunc_bounds_model (E L : ℕ) (hL : 0 < L) (hE : E < 2 ^ 53) (h : E * L < 2 ^ 51) (hL51 : L < 2 ^ 51) :
+    (lenDP .asCoded L = L ∨ lenDP .asCoded L + 1 = L) ∧
+    (stepsCal .asCoded E L = E * L ∨ stepsCal .asCoded E L + 1 = E * L) ∧
+    stepsTrain .asCoded E L ≤ E * L :=
+  ⟨lenDP_bounds L hL hL51, stepsCal_bounds E L hL hE h, by
+    unfold stepsTrain
+    rcases lenDP_bounds L hL hL51 with h1 | h1
+    · rw [h1]
+    · exact Nat.mul_le_mul_left E (by omega)⟩
+
+/-- **steps_consistent_iff** — calibration `(q, steps)` and training `(q, steps)` coincide iff the
+DP loader kept its length and the calibration step count was not truncated -/
+theorem steps_consistent_iff (E L : ℕ) (hL : 0 < L) (hL51 : L < 2 ^ 51) :
+    (qAcc .asCoded L = qSampler L ∧ stepsTrain .asCoded E L = stepsCal .asCoded E L) ↔
+    (lenDP .asCoded L = L ∧ stepsCal .asCoded E L = E * L) := by
+  rw [qAcc_eq_iff L hL hL51]
+  constructor
+  · rintro ⟨h1, h2⟩
+    refine ⟨h1, ?_⟩
+    rw [← h2, stepsTrain, h1]
+  · rintro ⟨h1, h2⟩
+    refine ⟨h1, ?_⟩
+    rw [h2, stepsTrain, h1]
+
+/-- on a tree that carries the integer `len(data_loader)` through, they always coincide -/
+theorem steps_consistent_repaired (E L : ℕ) :
+    qAcc .repaired L = qSampler L ∧ stepsTrain .repaired E L = stepsCal .repaired E L := by
+  simp [qAcc, qSampler, lenDP, stepsTrain, stepsCal]
+
+/-- **calibration_sound_partial** — the end-to-end statement of C08 under the consistency
+condition: if the DP loader kept its length and the calibration step count is `epochs·L`, then the
+σ returned by the calibration, accounted at the rate and for the number of steps training really
+uses, does not exceed the target (for ANY accountant `epsAt σ q steps`).
+Full statement (no hypothesis `hc`) is false as coded: `overshoot_witnesses`. -/
+theorem calibration_sound_partial {R : Type} [Add R] [Sub R] [Mul R] [Div R] [Preorder R] [DecidableLT R] [OfNat R 2]
+    (epsAt : R → B64 → ℕ → R) (target tol maxSigma inf lo0 hi0 : R) (fuelD fuelB : Nat) (σ : R)
+    (E L : ℕ) (hL : 0 < L) (hL51 : L < 2 ^ 51) (hinf : target < inf)
+    (hc : lenDP .asCoded L = L ∧ stepsCal .asCoded E L = E * L)
+    (h : (getNoiseMultiplier (fun s => epsAt s (qSampler L) (stepsCal .asCoded E L)) target tol maxSigma inf lo0 hi0 fuelD fuelB).res = .ok σ) :
+    ¬ target < epsAt σ (qAcc .asCoded L) (stepsTrain .asCoded E L) := by
+  obtain ⟨h1, h2⟩ := (steps_consistent_iff E L hL hL51).2 hc
+  rw [h1, h2]
+  exact (bisection_invariant _ target tol maxSigma inf lo0 hi0 fuelD fuelB σ hinf h).1
+
+/-- … and unconditionally on the repaired tree -/
+theorem calibration_sound_repaired {R : Type} [Add R] [Sub R] [Mul R] [Div R] [Preorder R] [DecidableLT R] [OfNat R 2]
+    (epsAt : R → B64 → ℕ → R) (target tol maxSigma inf lo0 hi0 : R) (fuelD fuelB : Nat) (σ : R)
+    (E L : ℕ) (hinf : target < inf)
+    (h : (getNoiseMultiplier (fun s => epsAt s (qSampler L) (stepsCal .repaired E L)) target tol maxSigma inf lo0 hi0 fuelD fuelB).res = .ok σ) :
+    ¬ target < epsAt σ (qAcc .repaired L) (stepsTrain .repaired E L) := by
+  obtain ⟨h1, h2⟩ := steps_consistent_repaired E L
+  rw [h1, h2]
+  exact (bisection_invariant _ target tol maxSigma inf lo0 hi0 fuelD fuelB σ hinf h).1
+
+/-- **overshoot_witnesses** — evaluated by the kernel on Lean's own `Float` (hardware binary64) and
+on the exact model: a loader of length 93 becomes a DP loader of length 92, and 3 epochs over a
+loader of length 75 are calibrated as 224 steps while training takes 225. -/
+theorem overshoot_witnesses :
+    lenDPFloat 93 = 92 ∧ lenDP .asCoded 93 = 92 ∧
+    stepsCalFloat 3 75 = 224 ∧ stepsCal .asCoded 3 75 = 224 ∧ stepsTrain .asCoded 3 75 = 225 ∧
+    qAcc .asCoded 93 ≠ qSampler 93 ∧ toBits (qSampler 93) = qSamplerFloatBits 93 := by
+  decide +kernel
+
+/-- the exact model and Lean's `Float` agree on `int(1/(1/L))` and on the bits of `1/L` for every
+`1 ≤ L ≤ 250`, and on `int(E/(1/L))` for `E ≤ 5`, `L ≤ 80` (kernel evaluation) -/
+theorem model_agrees_with_float :
+    (∀ L ∈ List.range' 1 250, lenDPFloat L = lenDP .asCoded L ∧ toBits (qSampler L) = qSamplerFloatBits L) ∧
+    (∀ E ∈ List.range 6, ∀ L ∈ List.range' 1 80, stepsCalFloat E L = stepsCal .asCoded E L) := by
+  decide +kernel
+
+/-- non-vacuity of `bisection_invariant` / `doubling_guard` / `terminates`: a concrete run over ℚ
+(`eps σ = 45/σ`, target 3, tolerance 1/100) that doubles once, bisects nine times and returns
+`1925/128`, where `eps = 2.9922…`; and one that raises -/
+example : (getNoiseMultiplier (fun s : ℚ => 45 / s) 3 (1 / 100) 1000000 (10 ^ 9) 0 10 18 40).res = .ok (1925 / 128) := by
+  decide +kernel
+example : (getNoiseMultiplier (fun _ : ℚ => 4) 3 (1 / 100) 1000000 (10 ^ 9) 0 10 18 40).res = .budgetTooLow := by
+  decide +kernel
+
+/-- non-vacuity of the consistency condition and of its failure -/
+example : lenDP .asCoded 100 = 100 ∧ stepsCal .asCoded 2 100 = 200 := by decide +kernel
+example : ¬ (lenDP .asCoded 93 = 93) := by decide +kernel
+
+end steps
 
 end Opacus.C08
